@@ -118,6 +118,10 @@ def noEmptyReport (sent : List Sent) (rows : List Row) : Bool :=
     decide ((rows.filter fun r => r.sender == s.sender && r.round == s.round).length ≥
             (sent.filter fun s' => s' == s).length)
 
+/-- a transmit that counts as performed sits in a block the chain produced: `genesis ≤ block ≤ last` -/
+def onChain (genesis last : Int) (r : Row) : Bool :=
+  !r.included || (decide (genesis ≤ (r.block : Int)) && decide ((r.block : Int) ≤ last))
+
 def recordOk (f : Nat) (checks : List CheckRec) (sent : List Sent) (rows : List Row) : Bool :=
   rows.all (rowQuorum f checks) && noEmptyReport sent rows
 
